@@ -344,6 +344,43 @@ func genC11(seed uint64, tier string) *Scenario {
 			s.Faults = append(s.Faults, simnetFault("dial_fail", r.Intn(3)))
 		}
 	}
+	// "Aligned" RPCs (own random stream, so the other scenarios of a seed stay
+	// what they were): the response headers arrive at the very instant the RPC's
+	// deadline passes or the application cancels, so the reader goroutine is
+	// inside the stream's header processing while the stream is being closed
+	// from the application side. Needs an ideal network: with latency the two
+	// instants are independent.
+	r2 := core.NewRand(core.Mix(seed, 97))
+	if r2.Chance(1, 3) && len(s.Faults) == 0 {
+		aligned := false
+		for i := range s.RPCs {
+			if !r2.Chance(1, 2) {
+				continue
+			}
+			rpc := &s.RPCs[i]
+			d := int64(r2.LogUniform(1000, 50000000))
+			var md []KV
+			for k := r2.Intn(40); k > 0; k-- {
+				md = append(md, KV{K: "x-pad", V: "v"})
+			}
+			hdr := SOp{Op: "headers", MD: md}
+			if r2.Chance(1, 2) {
+				rpc.DeadlineNs = d
+				rpc.Client = []Op{{Op: "recv_all"}}
+			} else {
+				rpc.DeadlineNs = d + int64(r2.LogUniform(1000000, 1000000000))
+				rpc.Client = []Op{{Op: "sleep", Ns: d}, {Op: "cancel"}, {Op: "recv_all"}}
+			}
+			rpc.WaitReady = true
+			rpc.Server = [][]SOp{{{Op: "sleep", Ns: d}, hdr}}
+			aligned = true
+		}
+		if aligned {
+			s.Net.LatencyNs, s.Net.StallPct, s.Net.DialDelayNs = 0, 0, 0
+			s.Peer.SettingsDelayNs = 0
+			s.Peer.NoPreface = false
+		}
+	}
 	sortActions(s)
 	return s
 }
